@@ -8,16 +8,16 @@ import Proofs.RetrieveHandoff
 namespace Retrieve
 open Wire Chain
 
-/-- what the scan never touches: seen-caches and the crash flag -/
-def SameFrame (a b : RNode) : Prop := a.seenH = b.seenH ∧ a.seenD = b.seenD ∧ a.crashed = b.crashed
+/-- what the scan never touches: the seen-caches -/
+def SameFrame (a b : RNode) : Prop := a.seenH = b.seenH ∧ a.seenD = b.seenD
 
-theorem SameFrame.refl (a : RNode) : SameFrame a a := ⟨rfl, rfl, rfl⟩
+theorem SameFrame.refl (a : RNode) : SameFrame a a := ⟨rfl, rfl⟩
 theorem SameFrame.trans {a b c : RNode} (h1 : SameFrame a b) (h2 : SameFrame b c) : SameFrame a c :=
-  ⟨h1.1.trans h2.1, h1.2.1.trans h2.2.1, h1.2.2.trans h2.2.2⟩
+  ⟨h1.1.trans h2.1, h1.2.trans h2.2⟩
 
 theorem handleBlobs_frame (p : Bytes) (n : RNode) (da : Nat) (bs : List (Bytes × Oracle)) (evs : List Event) :
     SameFrame (handleBlobs p n da bs evs).1 n := by
-  rw [handleBlobs_eq]; exact ⟨rfl, rfl, rfl⟩
+  rw [handleBlobs_eq]; exact ⟨rfl, rfl⟩
 
 theorem handleBlobs_hMarks_mono (p : Bytes) (n : RNode) (da : Nat) (bs : List (Bytes × Oracle)) (evs : List Event) :
     ∀ m ∈ n.hMarks, m ∈ (handleBlobs p n da bs evs).1.hMarks := by
@@ -217,7 +217,7 @@ theorem scan_handoff (p : Bytes) :
           · exact hnf
         obtain ⟨b1, b2, b3⟩ := ih { r.1 with daHeight := n.daHeight + 1 }
           (v.setScript n.daHeight ((v.scriptAt n.daHeight).drop r.2.2.2)) h k n.seenH n.seenD
-          hfr.1.1 hfr.1.2.1 hm hnf'
+          hfr.1.1 hfr.1.2 hm hnf'
         rw [setScript_blobsAt] at b1 b2 b3
         exact ⟨fun ev hev => List.mem_append.mpr (Or.inr (b1 ev hev)), b2, b3⟩
     · rename_i hv
@@ -273,7 +273,7 @@ theorem scan_events_sound (p : Bytes) :
           rw [hv]; simp
       · obtain ⟨h, k, hm, hin⟩ := ih { r.1 with daHeight := n.daHeight + 1 }
           (v.setScript n.daHeight ((v.scriptAt n.daHeight).drop r.2.2.2)) n.seenH n.seenD
-          hfr.1.1 hfr.1.2.1 ev hev
+          hfr.1.1 hfr.1.2 ev hev
         rw [setScript_blobsAt] at hin
         exact ⟨h, k, List.mem_append.mpr (Or.inr hm), hin⟩
     · rename_i hv
